@@ -121,6 +121,20 @@ CLAIMED = {
         note="positions satisfying Inv (C10)",
         technique="Coq proof (list equality via bits/filter lemmas) + differential correspondence check",
         ref="DESIGN.md section 6, C17"),
+    "C18": dict(
+        text="Coq theorem C18_see_sign, without residual premise: for every position satisfying the C10 invariant with at most 32 men "
+             "and every legal non-en-passant capture, the sign of StaticExchangeEvaluation equals the sign of the reference the "
+             "property describes (Eval/SeeRef.v: attackers recomputed geometrically on the current mailbox after every capture so that "
+             "pieces behind join in, least valuable attacker first, either side may stop, no legality, engine piece values, king 0). "
+             "Ingredients proved: the pruned swap list and the full one have the same sign for ANY value sequence; the full swap fold "
+             "is the minimax; after a king capture the tail cannot change the value; the incrementally maintained attacker set equals "
+             "the from-scratch geometric attackers except behind a king (uses C12's slider exactness); at most 31 capturers so gain[32] "
+             "suffices and SEE never panics. Tied to the code by the SEE value of every legal capture on sampled positions against the "
+             "extracted model, and Go's sign against the extracted reference (a difference is a failing input) and against an independent "
+             "Go reference.",
+        note="at most 32 men on the board (material premise, explicit); non-en-passant captures; piece values 0..1000 (checked for the generated constants)",
+        technique="Coq proof (list-level swap/minimax lemmas + incremental-attacker invariant on top of C12) + differential correspondence check + extracted reference as oracle",
+        ref="DESIGN.md section 6, C18"),
     "C19": dict(
         text="Coq theorems over the Gallina transliteration of scoreMoves and MoveList.SortIndex, for ARBITRARY heuristic state "
              "(PV move, table move, killers, arbitrary history and counter functions): scoring changes only bits 16..31 of every "
